@@ -22,17 +22,20 @@ Inductive reach : node -> loc -> node -> Prop :=
   | reach_step : forall n r c l m, child_at n r c -> reach c l m -> reach n (r :: l) m.
 
 (* a scalar that is a mapping value or a sequence element, at location l (the
-   root itself is not a place: it has no parent to be reported in) *)
-Definition value_place (d : node) (l : loc) (v : pyval) : Prop :=
-  exists l0 p r i, l = (l0 ++ [r])%list /\ reach d l0 p /\ child_at p r (NLeaf i v).
+   root itself is not a place: it has no parent to be reported in).  Places
+   name the scalar NODE, not just its Python value: an anchored YAML boolean
+   (ruamel's ScalarBoolean, Doc.is_sbool) has the Python value 1/0 but is
+   searched as a Boolean (Searches.search_matches, C12). *)
+Definition value_place (d : node) (l : loc) (s : node) : Prop :=
+  exists l0 p r, l = (l0 ++ [r])%list /\ reach d l0 p /\ child_at p r s /\ is_leaf s = true.
 
-Definition key_place (d : node) (l : loc) (k : pyval) : Prop :=
-  exists l0 i kvs kn v,
-    l = (l0 ++ [key_ref kn])%list /\ reach d l0 (NMap i kvs) /\ In (kn, v) kvs /\ key_val kn = k.
+Definition key_place (d : node) (l : loc) (kn : node) : Prop :=
+  exists l0 i kvs v,
+    l = (l0 ++ [key_ref kn])%list /\ reach d l0 (NMap i kvs) /\ In (kn, v) kvs.
 
-Definition member_place (d : node) (l : loc) (k : pyval) : Prop :=
-  exists l0 i els m,
-    l = (l0 ++ [member_ref m])%list /\ reach d l0 (NSet i els) /\ In m els /\ key_val m = k.
+Definition member_place (d : node) (l : loc) (m : node) : Prop :=
+  exists l0 i els,
+    l = (l0 ++ [member_ref m])%list /\ reach d l0 (NSet i els) /\ In m els.
 
 (* the leaf descendants of a node: the node itself when it is a scalar, the
    scalars reached through mappings and sequences, the members of sets so
@@ -75,8 +78,9 @@ Variable lit : string -> outcome litres.
 Variable re_search : string -> string -> outcome reres.
 Variable tm : terms.
 
-(* the scalar satisfies the search expression *)
-Definition satisfies (v : pyval) : Prop := term_matches lit re_search tm v = Ok true.
+(* the scalar node satisfies the search expression: search_matches, inverted or
+   not, on what the node is to Python (node_hay: a ScalarBoolean, or the value) *)
+Definition satisfies (s : node) : Prop := term_matches lit re_search tm (node_hay s) = Ok true.
 
 (* what a report may be for, under the key/value options *)
 Definition justified (o : opts) (d : node) (h : hit) : Prop :=
